@@ -875,12 +875,18 @@ def run(chk: common.Check):
             common.broken_obligation(chk, broken + [f"correspondence: {t}" for _, t, _ in dis[:5]], search)
     finally:
         shutil.rmtree(scratch, ignore_errors=True)
+    # the closed-loop clauses as the SIMULATOR drives them (in-flight <= concurrency, total <= invocations): end-to-end
+    # runs of the real simulator, also replayed through the simulator model
+    from harness.suites import _e2e_common as e2e
+
+    e2e.run_suite(chk, "C19", n_quick=100, n_thorough=1500, streams=("regular", "dag", "batch", "regular"))
+    e2e_rule = chk.rule
     chk.rule = (
         "cases = corpus of known findings + generated workload descriptions (1-4 profiles, 1-3 graphs of 1-6 nodes, every release "
         "policy, overrides/replication/unique flags, variance and bounds; ~30% carry one malformation) rendered to JSON or YAML, "
         "worker descriptions (typed / any / specific ids, duplicates, malformations), direct release-policy calls, direct fuzz calls; "
         "non-trivial = loads and yields >=1 task graph (workload), >=1 resource (workers), >=2 releases (policy), T>0 with variance (fuzz); "
-        "distinct = canonical description+flags"
+        "distinct = canonical description+flags || end-to-end: " + e2e_rule
     )
     chk.assumptions += [
         "names of profiles, graphs and of the nodes of one graph are pairwise different in generated descriptions",
@@ -894,6 +900,10 @@ def run(chk: common.Check):
 
 def replay(path) -> int:
     data = json.loads(Path(path).read_text())
+    if data.get("suite") == "sim":
+        from harness.suites import _e2e_common as e2e
+
+        return e2e.replay("C19", path)
     if "case" not in data:
         print("replay holds no input (broken proof obligation): " + "; ".join(data.get("broken", [])))
         print("re-run ./check C19 to see whether the obligation is still broken")
